@@ -48,7 +48,9 @@ def parse_protos(repo):
         if os.path.basename(h) == 'lines_old.h':
             continue
         t = _strip(open(h).read())
-        for m in re.finditer(r'\b(?:XRL_EXTERN|XRL_DEPRECATED)\s+([^;{}]+?\))\s*;', t, flags=re.S):
+        # a prototype may carry attribute macros / __attribute__((...)) between its ')' and the ';' (they stay in force for the monitor, which
+        # includes the header; they are not part of the classified signature)
+        for m in re.finditer(r'\b(?:XRL_EXTERN|XRL_DEPRECATED)\s+([^;{}]+?\))((?:\s+[A-Z_][A-Z0-9_]*|\s*__attribute__\s*\(\([^;]*?\)\))*)\s*;', t, flags=re.S):
             out.append((os.path.basename(h), ' '.join(m.group(1).split())))
     out += EXTRA_PROTOS
     return out
@@ -64,10 +66,10 @@ def classify(proto):
         return dict(name=name, ret=ret, args=argl, sig=None)
     sig, names = '', []
     for a in argl[:-1]:
-        mm = re.match(r'^int\s+(\w+)$', a)
+        mm = re.match(r'^(?:const\s+)?(?:unsigned\s+|signed\s+)?(?:int|short|long|unsigned|char)\s+(\w+)$', a)      # any integer type: driven with the same ints
         if mm:
             sig += 'i'; names.append(mm.group(1)); continue
-        mm = re.match(r'^double\s+(\w+)$', a)
+        mm = re.match(r'^(?:const\s+)?(?:double|float|long\s+double)\s+(\w+)$', a)      # narrower / wider floating types are driven with the same doubles
         if mm:
             sig += 'd'; names.append(mm.group(1)); continue
         mm = re.match(r'^const\s+char\s*(?:\*\s*(\w+)|(\w+)\s*\[\s*\])$', a)
@@ -134,6 +136,23 @@ def generate(repo, outdir):
     lines.append('  default: return 0.0;')
     lines.append('  }')
     lines.append('}')
+    # the same calls written the way user code writes them: a direct call with the address of a LOCAL error slot that is tested right
+    # afterwards, compiled with optimisation against the public header (what the header promises about a function - attributes, types -
+    # is then what the optimiser believes).  *st: 1 = the caller saw an error.
+    for k, f in enumerate(fns):
+        ii = dd = 0
+        al = []
+        for ch in f['sig']:
+            if ch == 'i':
+                al.append('I[%d]' % ii); ii += 1
+            elif ch == 'd':
+                al.append('D[%d]' % dd); dd += 1
+            else:
+                al.append('S')
+        lines.append('static double xvd_%d(const int *I, const double *D, const char *S, int *st) { xrl_error *e = NULL; double v = %s(%s); (void)I; (void)D; (void)S; if (e != NULL) { *st = 1; xrl_error_free(e); } return v; }' % (
+            k, f['name'], ', '.join(al + ['&e'])))
+    lines.append('typedef double (*xvd_fn)(const int *, const double *, const char *, int *);')
+    lines.append('static const xvd_fn XV_DIRECT[XV_NFN] __attribute__((unused)) = {' + ', '.join('xvd_%d' % k for k in range(len(fns))) + '};')
     lines.append('#endif')
     open(os.path.join(outdir, 'sigtab.h'), 'w').write('\n'.join(lines) + '\n')
     for k, f in enumerate(fns):
